@@ -183,7 +183,7 @@ fn main() {
         let r = if case["kind"].as_str() == Some("file") {
             file_cases().err()
         } else if case["kind"].as_str() == Some("path") {
-            match path_save(cfg) {
+            match path_save(cfg, case["existing"].as_u64().map(|k| k as usize)) {
                 Err(e) => Some(e),
                 Ok(Err(m)) => Some(m),
                 Ok(Ok(b)) => (b != healthy).then(|| "file written by save(path) differs from the bytes save_to delivers".to_string()),
@@ -199,7 +199,7 @@ fn main() {
     }
     run.rule(
         "for each (document x xref format x plain|incremental) configuration: every byte offset p of the healthy output as failure \
-         point x {persistent hard error, persistent Ok(0), hard error that occurs once and then clears}; every write-call index as a single Interrupted; chunkings of 1..8 bytes per call and the cyclic \
+         point x {persistent hard error, persistent Ok(0), hard error that occurs once and then clears}; every write-call index as a single Interrupted and as the start of a burst of k consecutive Interrupted results (k in {2, 17, 100}; ten lengths up to 1000 in thorough), 19 Interrupted results before every single-byte write; chunkings of 1..8 bytes per call and the cyclic \
          pattern 1,2,3; chunking x failure point combinations; save(path) of every configuration against the save_to bytes; non-trivial = failure strictly inside the output or a chunked/interrupted run; \
          scripts are distinct by construction",
     );
@@ -217,25 +217,28 @@ fn main() {
             continue;
         }
         // the path-taking entry point writes the same bytes (a BufWriter over a File sits in between)
-        run.eval(1);
-        run.add("path_saves", 1);
-        match path_save(cfg) {
+        run.eval(3);
+        run.add("path_saves", 3);
+        // (to a fresh path, over an existing shorter file and over an existing LONGER file)
+        for existing in [None, Some(healthy.len() / 2), Some(healthy.len() + 1000)] {
+        match path_save(cfg, existing) {
             Err(e) => {
                 eprintln!("MACHINERY: {}", e);
                 std::process::exit(3);
             }
-            Ok(Err(m)) => run.fail(None, json!({"kind": "path", "config": cfg.label}), &m, "save(path) returns Ok and the file holds exactly the bytes save_to delivers"),
+            Ok(Err(m)) => run.fail(None, json!({"kind": "path", "config": cfg.label, "existing": existing}), &m, "save(path) returns Ok and the file holds exactly the bytes save_to delivers"),
             Ok(Ok(bytes)) => {
                 if bytes != healthy {
                     let at = bytes.iter().zip(&healthy).position(|(a, b)| a != b).unwrap_or(bytes.len().min(healthy.len()));
                     run.fail(
                         None,
-                        json!({"kind": "path", "config": cfg.label}),
-                        &format!("file written by save(path) has {} bytes, save_to delivers {}; first difference at offset {}", bytes.len(), healthy.len(), at),
+                        json!({"kind": "path", "config": cfg.label, "existing": existing}),
+                        &format!("file written by save(path) over {} has {} bytes, save_to delivers {}; first difference at offset {}", match existing { None => "a fresh path".to_string(), Some(k) => format!("an existing file of {} bytes", k) }, bytes.len(), healthy.len(), at),
                         "save(path) returns Ok and the file holds exactly the bytes save_to delivers",
                     );
                 }
             }
+        }
         }
         // count write calls of a healthy run
         let mut probe = ScriptSink::new(Script::default());
@@ -256,6 +259,15 @@ fn main() {
         for i in 0..calls {
             scripts.push(Script { interrupt_calls: vec![i], ..Default::default() });
         }
+        // bursts: the sink answers Interrupted k times in a row before it accepts the write (still transient)
+        let bursts: &[usize] = if run.thorough { &[2, 3, 15, 16, 17, 18, 33, 64, 100, 1000] } else { &[2, 17, 100] };
+        for i in 0..calls {
+            for k in bursts {
+                scripts.push(Script { interrupt_calls: (i..i + k).collect(), ..Default::default() });
+            }
+        }
+        // ... and before every write of a run chunked into single bytes
+        scripts.push(Script { chunks: vec![1], interrupt_calls: (0..40 * n).filter(|c| c % 20 != 19).collect(), ..Default::default() });
         let mut chunkings: Vec<Vec<usize>> = (1..=8).map(|c| vec![c]).collect();
         chunkings.push(vec![1, 2, 3]);
         chunkings.push(vec![7, 1]);
@@ -315,8 +327,11 @@ fn main() {
 }
 
 /// outer Err = machinery (scratch file); inner Err = the save failed or panicked
-fn path_save(cfg: &Config) -> Result<Result<Vec<u8>, String>, String> {
+fn path_save(cfg: &Config, existing: Option<usize>) -> Result<Result<Vec<u8>, String>, String> {
     let p = util::scratch_path()?;
+    if let Some(k) = existing {
+        std::fs::write(&p, vec![b'#'; k]).map_err(|e| format!("scratch file: {}", e))?;
+    }
     let mut s = cfg.subject.clone();
     let r = util::guard(|| match &mut s {
         Subject::Plain(d) => d.save(&p).map(|_| ()),
